@@ -188,15 +188,14 @@ structure EntryRes where
   seg : List TEv
   abort : Bool
 
-/-- `if (loop->current_ev != NULL) { if (events & EPOLLOUT) { if (write_function != NULL) … } }`;
-    `pre` is what the entry has produced so far. -/
-def writePart (P : Params) (x : Nat) (m : Mask) (L : Loop) (sc : List Answer) (pre : List TEv) : EntryRes :=
+/-- `if (loop->current_ev != NULL) { if (events & EPOLLOUT) { if (write_function != NULL) … } }` -/
+def writePart (P : Params) (x : Nat) (m : Mask) (L : Loop) (sc : List Answer) : EntryRes :=
   if L.current.isSome then
     if isOut m && P.hasWrite x then
       let c := callback P x .write L sc
-      ⟨c.loop, c.script, pre ++ c.trace, c.ret == .abort⟩
-    else ⟨L, sc, pre, false⟩
-  else ⟨L, sc, pre, false⟩
+      ⟨c.loop, c.script, c.trace, c.ret == .abort⟩
+    else ⟨L, sc, [], false⟩
+  else ⟨L, sc, [], false⟩
 
 def entry (P : Params) (e : Entry) (L : Loop) (sc : List Answer) : EntryRes :=
   match e.ev with
@@ -211,8 +210,10 @@ def entry (P : Params) (e : Entry) (L : Loop) (sc : List Answer) : EntryRes :=
       match c.ret with
       | .abort => ⟨c.loop, c.script, c.trace, true⟩
       | .removed => ⟨c.loop, c.script, c.trace, false⟩
-      | .cont => writePart P x e.mask c.loop c.script c.trace
-    else writePart P x e.mask L sc []
+      | .cont =>
+        let w := writePart P x e.mask c.loop c.script
+        ⟨w.loop, w.script, c.trace ++ w.seg, w.abort⟩
+    else writePart P x e.mask L sc
 
 /-! ### `dispatch_events`, `handle_events`, `eventloop_epoll_run` -/
 
@@ -307,13 +308,30 @@ inductive Status where
   | ok | dead | stale
   deriving DecidableEq, Repr
 
+/-- How one trace event changes the status of `x`. -/
+def stepStatus (x : Nat) (s : Status) : TEv → Status
+  | .removed y => if y = x then .dead else s
+  | .added y ok => if y = x ∧ ok = true ∧ s = .dead then .stale else s
+  | .harvest _ => if s = .stale then .ok else s
+  | _ => s
+
+def statusAfter (x : Nat) (s : Status) (tr : List TEv) : Status := tr.foldl (stepStatus x) s
+
 /-- Trace monitor for one id: a function of `x` is invoked only in status `ok`. -/
 def monX (x : Nat) : Status → List TEv → Prop
   | _, [] => True
-  | s, .removed y :: t => monX x (if y = x then .dead else s) t
-  | s, .added y ok :: t => monX x (if y = x ∧ ok = true ∧ s = .dead then .stale else s) t
-  | s, .harvest _ :: t => monX x (if s = .stale then .ok else s) t
-  | s, .call y _ :: t => (y = x → s = .ok) ∧ monX x s t
-  | s, _ :: t => monX x s t
+  | s, e :: t => (∀ f, e = .call x f → s = .ok) ∧ monX x (stepStatus x s e) t
+
+/-- The ids removed in a trace, in order. -/
+def removedIn : List TEv → List Nat
+  | [] => []
+  | .removed x :: t => x :: removedIn t
+  | _ :: t => removedIn t
+
+/-- The callback return codes of a trace, in order. -/
+def retsOf : List TEv → List Ret
+  | [] => []
+  | .ret r :: t => r :: retsOf t
+  | _ :: t => retsOf t
 
 end Cjet.Evloop
